@@ -4,7 +4,7 @@
 Shapes are enumerated exhaustively within the stated bounds; the operation codes mirror the
 constants in zz_verif_c06.go.  usage: python3 zz_verif_c06_cases.py [--sample]
 """
-import json, sys, os
+import json, sys, os, random
 
 OPS = ["cons", "list*", "append", "append1", "cdr", "rest", "nthcdr", "last", "last1", "butlast", "butlast1",
        "subseq", "subseq1", "copy-list", "reverse", "remove-count", "remove-start-end", "remove-from-end", "member",
@@ -126,18 +126,21 @@ def main():
         else:
             q = cases(ops, (3, 4), 2)
             t = cases(ops, (4, 6), 3)
+        # deterministic shuffle: shards take every n-th case, heavy and light cases must mix
+        random.Random(6).shuffle(q)
+        random.Random(6).shuffle(t)
         obligations.append({
             "id": gid, "property": "C06", "pkg": "pkg/cl", "entry": "VerifC06Step",
             "cases": {"quick": q, "thorough": t}, "reach": ["ran"], "carved_out": carves,
             "overrides": OVERRIDES,
-            "max_depth": 600, "max_steps": 40000000, "solver_timeout_ms": 10000,
+            "max_depth": 600, "max_steps": 40000000, "solver_timeout_ms": 60000,
             "note": NOTE % ", ".join(ops), "assumptions": ASSUME,
         })
     obligations.append({
         "id": "C06.findings", "property": "C06", "pkg": "pkg/cl", "entry": "VerifC06Step",
         "cases": {"quick": FINDING_CASES, "thorough": FINDING_CASES}, "reach": ["ran"],
         "carves": sorted(set(c for _, _, cs in GROUPS for c in cs)),
-        "overrides": OVERRIDES, "max_depth": 600, "max_steps": 40000000, "solver_timeout_ms": 10000,
+        "overrides": OVERRIDES, "max_depth": 600, "max_steps": 40000000, "solver_timeout_ms": 60000,
         "note": "witness cases for the known findings carved out of the C06 step obligations (same entry, same assertions): "
                 "the probe runs of ./check explore inside each region on these shapes only, so that a probe costs seconds; "
                 "the carve-outs themselves (assume not-region) act in every obligation that reaches the vrt.Carve call (listed there under carved_out).",
